@@ -119,7 +119,9 @@ def st_decos(draw, ids, kind, n_pre=(0, 3), n_post=(0, 2), n_snap=(0, 2), n_wrap
 
 RET_POOL = ["obj", "None", "0", "''", "False", "list", "emptylist", "arg"]
 EXC_POOL_SYNC = ["Exception", "KeyError", "ProgError", "KeyboardInterrupt", "SystemExit", "GeneratorExit",
-                 "ProgBaseError", "StopIteration"]
+                 "ProgBaseError", "StopIteration",
+                 # types the library raises or handles itself somewhere: they pass through like any other
+                 "RecursionError", "ProgRecursionError", "TypeError", "AttributeError", "ValueError"]
 EXC_POOL_ASYNC = [e for e in EXC_POOL_SYNC if e != "StopIteration"]
 
 
